@@ -122,7 +122,9 @@ func ctxFields(k evKey) []log.Field {
 	defer ctxSharedMu.Unlock()
 	if ctxShared[req] == nil {
 		s := make([]log.Field, 2, 16)
-		s[0], s[1] = log.String("trace_id", fmt.Sprintf("trREQ%04d", req)), log.Int("span", 7000+req)
+		// the second field is of an application-defined array type: its encoder is application
+		// code that runs in the middle of formatting, and it may be preempted there
+		s[0], s[1] = log.String("trace_id", fmt.Sprintf("trREQ%04d", req)), log.Array("span", spanIDs{int64(7000 + req), 1})
 		if req == 1 {
 			// application keys are free to coincide with the names a layout uses for its own members
 			s[0], s[1] = log.String("level", fmt.Sprintf("trREQ%04d", req)), log.Int("tag", 7000+req)
@@ -130,6 +132,16 @@ func ctxFields(k evKey) []log.Field {
 		ctxShared[req] = s
 	}
 	return ctxShared[req]
+}
+
+// spanIDs is an application-defined array value.
+type spanIDs []int64
+
+func (a spanIDs) EncodeArray(enc log.Encoder) {
+	for _, v := range a {
+		verifsim.Yield("app.EncodeArray")
+		enc.AppendInt64(v)
+	}
 }
 
 var (
